@@ -117,6 +117,19 @@ def check(case):
     parts = "".join(p.dump() if hasattr(p, "dump") else p.convert_to_text() for p in f.iter_parts())
     if parts != exp:
         raise Violation("parts-differ", "concatenated parts %s" % short(parts))
+    # file objects are iterables of lines, too ("a file open for reading will do")
+    if case["mode"] != "none":
+        want = [l if isinstance(l, str) else l.decode("utf-8") for l in lines]
+        for fobj in (io.StringIO(exp, newline="\n"), io.BytesIO(exp.encode("utf-8"))):
+            fl = [x if isinstance(x, str) else x.decode("utf-8") for x in fobj]
+            fobj.seek(0)
+            if fl != want:
+                continue     # file iteration itself would cut this text into other lines
+            g = parse_deb822_file(fobj, accept_files_with_error_tokens=True,
+                                  accept_files_with_duplicated_fields=True)
+            if g.dump() != exp:
+                raise Violation("dump-differs", "%s input: dump gives %s, input %s" % (
+                    type(fobj).__name__, short(g.dump()), short(exp)))
     # What an earlier call handed out belongs to the caller: edit the first result (a perturbation
     # only - whether these edits behave is C05/C10's business), then parse the same input again.
     for para in list(f):
